@@ -17,6 +17,27 @@ MUTATING = ('append', 'iterappend', 'iterappend_fail', 'truncate', 'delete') + M
 SMALLCAP = {'int8': 127, 'uint8': 255, 'int16': 32767}
 
 
+def _it(rows, **kw):
+    d = {'rows': rows, 'trail': 'match', 'layout': 'C', 'form': 'ndarray', 'vseed': 0, 'dtype': 'same', 'gen': 'rand'}
+    d.update(kw)
+    return d
+
+
+C04_ALPHABET = [
+    {'op': 'append', 'item': _it(2)},
+    {'op': 'append', 'item': _it(0)},
+    {'op': 'append', 'item': _it(3, form='list', dtype='<i4', gen='nonneg', layout='strided')},
+    {'op': 'iterappend', 'as': 'generator', 'items': [_it(1, dtype='>f4', gen='nonneg'), _it(0), _it(2)]},
+    {'op': 'iterappend', 'as': 'list', 'items': []},
+    {'op': 'truncate', 'index': 0, 'by': 'handle'},
+    {'op': 'truncate', 'index': -1, 'by': 'handle'},
+    {'op': 'truncate', 'index': 1, 'by': 'path'},
+    {'op': 'reopen', 'mode': 'r+'},
+    {'op': 'append', 'bad': 'shape', 'item': _it(1, gen='safe')},
+    {'op': 'iter', 's': 1, 'e': None, 'st': 2},
+]
+
+
 class RaggedHistory(Engine):
     prop = 'C04'
     oracles = ('model', 'fresh', 'reject', 'indextype')
@@ -103,7 +124,49 @@ class RaggedHistory(Engine):
             return {'op': 'delete'}
         raise HarnessError(k)
 
+    ENUM_LEN = 4
+    enum_alphabet = None
+    enum_starts = [
+        # (create_raggedarray costs 0.6 s per call - Darr allocates its 80 MB fill buffer - so the enumerated
+        # part starts from one empty subarray instead; 'truncate 0' in the alphabet reaches the empty ragged array)
+        {'op': 'create', 'how': 'asraggedarray', 'atom': [], 'dtype': '<f8', 'indextype': 'int64', 'mode': 'r+', 'dtypearg': None,
+         'as': 'list', 'items': [{'rows': 0, 'trail': 'match', 'layout': 'C', 'form': 'ndarray', 'vseed': 1, 'dtype': '<f8', 'gen': 'rand'}]},
+        {'op': 'create', 'how': 'asraggedarray', 'atom': [2], 'dtype': '>i2', 'indextype': 'uint8', 'mode': 'r+', 'dtypearg': None,
+         'as': 'generator', 'items': [
+             {'rows': 2, 'trail': 'match', 'layout': 'C', 'form': 'ndarray', 'vseed': 1, 'dtype': '>i2', 'gen': 'rand'},
+             {'rows': 0, 'trail': 'match', 'layout': 'C', 'form': 'ndarray', 'vseed': 2, 'dtype': '>i2', 'gen': 'rand'}]},
+    ]
+
+    def enum_total(self):
+        if not self.enum_alphabet:
+            return 0
+        k = len(self.enum_alphabet)
+        return len(self.enum_starts) * sum(k ** n for n in range(1, self.ENUM_LEN + 1))
+
+    def enum_scenario(self, i):
+        from .arrayhist import copy_json
+        k = len(self.enum_alphabet)
+        per = sum(k ** n for n in range(1, self.ENUM_LEN + 1))
+        start = copy_json(self.enum_starts[i // per])
+        j = i % per
+        n = 1
+        while j >= k ** n:
+            j -= k ** n
+            n += 1
+        seq = []
+        for _ in range(n):
+            seq.append(copy_json(self.enum_alphabet[j % k]))
+            j //= k
+        for t, op in enumerate(seq):
+            if 'item' in op:
+                op['item']['vseed'] = 1000 + t
+            for d in op.get('items', []):
+                d['vseed'] = 2000 + t
+        return {'engine': type(self).__name__, 'prop': self.prop, 'ops': [start] + seq, 'enumerated': True}
+
     def gen(self, rng, i, tier):
+        if tier == 'thorough' and i < self.enum_total():
+            return self.enum_scenario(i)
         many = rng.random() < self.many_p
         ops = [self.gen_create(rng, many)]
         w0 = dict(self.weights)
